@@ -703,12 +703,12 @@ func ruleOwners() *Rule {
 		allowed []string
 	}
 	table := []own{
-		{"store Raft.commitIndex", []string{"(*Raft).commitLoop", "(*Raft).AppendEntries", "(*Raft).InstallSnapshot", "NewRaft", "(*Raft).Restart"}},
-		{"store Raft.lastApplied", []string{"(*Raft).applyLoop", "(*Raft).InstallSnapshot", "NewRaft", "(*Raft).Restart"}},
-		{"store Raft.lastIncludedIndex", []string{"(*Raft).snapshotLoop", "(*Raft).InstallSnapshot", "NewRaft", "(*Raft).Restart"}},
-		{"store Raft.lastIncludedTerm", []string{"(*Raft).snapshotLoop", "(*Raft).InstallSnapshot", "NewRaft", "(*Raft).Restart"}},
+		{"store Raft.commitIndex", []string{"(*Raft).commitLoop", "(*Raft).AppendEntries", "(*Raft).InstallSnapshot", "NewRaft", "(*Raft).Restart", "(*Raft).Start"}},
+		{"store Raft.lastApplied", []string{"(*Raft).applyLoop", "(*Raft).InstallSnapshot", "NewRaft", "(*Raft).Restart", "(*Raft).Start"}},
+		{"store Raft.lastIncludedIndex", []string{"(*Raft).snapshotLoop", "(*Raft).InstallSnapshot", "NewRaft", "(*Raft).Restart", "(*Raft).Start"}},
+		{"store Raft.lastIncludedTerm", []string{"(*Raft).snapshotLoop", "(*Raft).InstallSnapshot", "NewRaft", "(*Raft).Restart", "(*Raft).Start"}},
 		{"call StateMachine.Apply", []string{"(*Raft).applyLoop", "(*Raft).readOnlyLoop"}},
-		{"call StateMachine.Restore", []string{"(*Raft).InstallSnapshot", "NewRaft", "(*Raft).Restart"}},
+		{"call StateMachine.Restore", []string{"(*Raft).InstallSnapshot", "NewRaft", "(*Raft).Restart", "(*Raft).Start"}},
 		{"call StateMachine.Snapshot", []string{"(*Raft).snapshotLoop"}},
 		{"call Log.Truncate", []string{"(*Raft).AppendEntries"}},
 		{"call Log.Compact", []string{"(*Raft).snapshotLoop", "(*Raft).InstallSnapshot"}},
